@@ -133,3 +133,76 @@ func VerifC12Mutex() {
 	zz.Assert(err == nil, "C12.later-entrant-gets-in")
 	zz.Reach("later-entrant-done")
 }
+
+var c12Gates [3]sync.Mutex
+
+// hold(name, i): the calling thread is inside a block of that name and stays there until gate i is opened
+type c12Hold struct{ *inbuildBaseFunc }
+
+func (f *c12Hold) Run(instanceID string, vs parser.Scope, is map[string]interface{}, tid uint64, args []interface{}) (interface{}, error) {
+	name := args[0].(string)
+	i := int(args[1].(float64))
+	c12Occ[name]++
+	if c12Occ[name] > c12MaxOcc[name] {
+		c12MaxOcc[name] = c12Occ[name]
+	}
+	c12Gates[i].Lock()
+	c12Gates[i].Unlock()
+	c12Occ[name]--
+	return nil, nil
+}
+func (f *c12Hold) DocString() (string, error) { return "", nil }
+
+// VerifC12Handover: exclusion across hand-overs, forced with gates instead of explored pre-emptions: A is inside a block,
+// B waits for it, A leaves (exit kind symbolic) and B gets in, then a third entrant arrives (a new thread or A's thread
+// id again) while B is still inside: it has to wait.  Afterwards everybody finishes and a later entrant gets in.
+func VerifC12Handover() {
+	InbuildFuncMap["hold"] = &c12Hold{}
+	c12Occ["a"], c12MaxOcc["a"] = 0, 0
+	erp, _ := zzProvider()
+	vs := zzScope()
+	body := "func h(t, k) {\n  for i in [1] {\n    mutex a {\n      hold(\"a\", t)\n" +
+		"      if k == 1 {\n        raise(\"E\")\n      } elif k == 2 {\n        return 1\n      } elif k == 3 {\n        break\n      } elif k == 4 {\n        continue\n      }\n" +
+		"    }\n  }\n  return 0\n}\n"
+	_, err := zzRun(erp, body, vs)
+	zz.Assert(err == nil, "C12.setup")
+	k := zz.Choice("exitA", 5)
+	sameTid := zz.Bool("thirdEntrantIsThreadAAgain")
+	tids := []uint64{1, 2, 3}
+	if sameTid {
+		tids[2] = 1
+	}
+	var wg sync.WaitGroup
+	start := func(t int, kind int) {
+		ast, err := parser.ParseWithRuntime("t", "h("+[]string{"0", "1", "2"}[t]+", "+[]string{"0", "1", "2", "3", "4"}[kind]+")", erp)
+		zz.Assert(err == nil && ast.Runtime.Validate() == nil, "C12.setup-thread")
+		wg.Add(1)
+		go func() {
+			ast.Runtime.Eval(vs.NewChild("thread"+[]string{"0", "1", "2"}[t]), make(map[string]interface{}), tids[t])
+			wg.Done()
+		}()
+	}
+	for i := range c12Gates {
+		c12Gates[i].Lock()
+	}
+	start(0, k)
+	zz.Quiesce() // A is inside
+	zz.Assert(c12Occ["a"] == 1, "C12.first-entrant-gets-in")
+	start(1, 0)
+	zz.Quiesce() // B waits
+	zz.Assert(c12Occ["a"] == 1 && c12MaxOcc["a"] == 1, "C12.mutual-exclusion")
+	c12Gates[0].Unlock()
+	zz.Quiesce() // A has left, B is inside
+	zz.Assert(c12Occ["a"] == 1, "C12.waiter-gets-in-after-release")
+	start(2, 0)
+	zz.Quiesce() // the third entrant has to wait for B
+	zz.Reach("third-entrant-arrived")
+	zz.Assert(c12MaxOcc["a"] <= 1, "C12.mutual-exclusion")
+	c12Gates[1].Unlock()
+	c12Gates[2].Unlock()
+	wg.Wait()
+	zz.Assert(c12MaxOcc["a"] <= 1 && c12Occ["a"] == 0, "C12.mutual-exclusion")
+	_, err = zzRunTid(erp, "mutex a {\n r := 1\n}", vs, 9)
+	zz.Assert(err == nil, "C12.later-entrant-gets-in")
+	zz.Reach("later-entrant-done")
+}
